@@ -30,11 +30,11 @@ Import ListNotations.
    fragment (unbounded size and nesting), every set of builtins, every table of inherited attributes. *)
 Theorem C02_pyname_agrees_partial :
   forall (p : program) (nl : N) (bi : list ident) (inh : list nat -> ident -> option binding)
-         (init call : ident) (meths : list (list nat * ident * bool)) (kwlike : N -> bool),
+         (init call : ident) (meths : list (list nat * option ident * (bool * bool))) (kwlike : N -> bool),
     in_fragment_C15 p = true ->
     forall t : tok,
     core t = true ->
-    tok_ok bi inh (rope_tree p) kwlike t = true ->
+    tok_ok bi inh (rope_tree p) meths kwlike t = true ->
     rope_pyname_at bi inh (rope_tree p) init call meths kwlike t
     = pn_of (rope_tree p) (spec_binding bi (spec_tree nl p) t) (t_name t).
 Proof. exact pyname_agrees. Qed.
@@ -43,7 +43,7 @@ Print Assumptions C02_pyname_agrees_partial.
 (* none belonging to a different binding *)
 Theorem C02_sound_partial :
   forall (p : program) (nl : N) (bi : list ident) (inh : list nat -> ident -> option binding)
-         (init call : ident) (meths : list (list nat * ident * bool)) (kwlike : N -> bool) (q o : tok),
+         (init call : ident) (meths : list (list nat * option ident * (bool * bool))) (kwlike : N -> bool) (q o : tok),
     in_fragment_C02 bi inh init call meths kwlike p = true ->
     In q (toks p) -> core q = true -> core o = true ->
     In o (rope_occurrences bi inh (rope_tree p) init call meths kwlike (toks p) q) ->
@@ -54,7 +54,7 @@ Print Assumptions C02_sound_partial.
 (* none missing: every token of the same spelling that denotes the same existing binding is reported *)
 Theorem C02_complete_partial :
   forall (p : program) (nl : N) (bi : list ident) (inh : list nat -> ident -> option binding)
-         (init call : ident) (meths : list (list nat * ident * bool)) (kwlike : N -> bool) (q o : tok),
+         (init call : ident) (meths : list (list nat * option ident * (bool * bool))) (kwlike : N -> bool) (q o : tok),
     in_fragment_C02 bi inh init call meths kwlike p = true ->
     In q (toks p) -> In o (toks p) -> core q = true -> core o = true ->
     t_name o = t_name q ->
@@ -68,7 +68,7 @@ Print Assumptions C02_complete_partial.
    (keyword arguments, attributes and import forms included; no domain hypothesis) *)
 Theorem C02_query_independent :
   forall (bi : list ident) (inh : list nat -> ident -> option binding) (rt : rscope)
-         (init call : ident) (meths : list (list nat * ident * bool)) (kwlike : N -> bool)
+         (init call : ident) (meths : list (list nat * option ident * (bool * bool))) (kwlike : N -> bool)
          (ts : list tok) (q o : tok),
     In o (rope_occurrences bi inh rt init call meths kwlike ts q) ->
     rope_occurrences bi inh rt init call meths kwlike ts o
@@ -79,7 +79,7 @@ Print Assumptions C02_query_independent.
 (* a token that has a PyName is one of its own occurrences *)
 Theorem C02_query_reflexive :
   forall (bi : list ident) (inh : list nat -> ident -> option binding) (rt : rscope)
-         (init call : ident) (meths : list (list nat * ident * bool)) (kwlike : N -> bool)
+         (init call : ident) (meths : list (list nat * option ident * (bool * bool))) (kwlike : N -> bool)
          (ts : list tok) (q : tok) (b : binding) (x : ident) (i : bool),
     In q ts ->
     rope_pyname_at bi inh rt init call meths kwlike q = PName b x i ->
@@ -102,9 +102,9 @@ Print Assumptions C02_header_lookup.
 Theorem C02_header_default_refuted :
   in_fragment_C15 w_header_expression = true
   /\ m_frag w_header_expression bi_header_expression ids_header_expression init_header_expression
-            call_header_expression odd_header_expression kwl_header_expression = false
+            call_header_expression odd_header_expression prop_header_expression kwl_header_expression = false
   /\ unsound w_header_expression nl_header_expression bi_header_expression ids_header_expression
-             init_header_expression call_header_expression odd_header_expression kwl_header_expression.
+             init_header_expression call_header_expression odd_header_expression prop_header_expression kwl_header_expression.
 Proof. exact header_default_refuted. Qed.
 Print Assumptions C02_header_default_refuted.
 
@@ -112,11 +112,11 @@ Print Assumptions C02_header_default_refuted.
 Theorem C02_header_class_attribute_refuted :
   in_fragment_C15 w_header_class_attribute = true
   /\ m_frag w_header_class_attribute bi_header_class_attribute ids_header_class_attribute
-            init_header_class_attribute call_header_class_attribute odd_header_class_attribute
+            init_header_class_attribute call_header_class_attribute odd_header_class_attribute prop_header_class_attribute
             kwl_header_class_attribute = false
   /\ unsound w_header_class_attribute nl_header_class_attribute bi_header_class_attribute
              ids_header_class_attribute init_header_class_attribute call_header_class_attribute
-             odd_header_class_attribute kwl_header_class_attribute.
+             odd_header_class_attribute prop_header_class_attribute kwl_header_class_attribute.
 Proof. exact header_class_attribute_refuted. Qed.
 Print Assumptions C02_header_class_attribute_refuted.
 
@@ -125,10 +125,10 @@ Theorem C02_comprehension_first_iterable_refuted :
   in_fragment_C15 w_comprehension_first_iterable = true
   /\ m_frag w_comprehension_first_iterable bi_comprehension_first_iterable ids_comprehension_first_iterable
             init_comprehension_first_iterable call_comprehension_first_iterable
-            odd_comprehension_first_iterable kwl_comprehension_first_iterable = false
+            odd_comprehension_first_iterable prop_comprehension_first_iterable kwl_comprehension_first_iterable = false
   /\ unsound w_comprehension_first_iterable nl_comprehension_first_iterable bi_comprehension_first_iterable
              ids_comprehension_first_iterable init_comprehension_first_iterable
-             call_comprehension_first_iterable odd_comprehension_first_iterable
+             call_comprehension_first_iterable odd_comprehension_first_iterable prop_comprehension_first_iterable
              kwl_comprehension_first_iterable.
 Proof. exact comprehension_first_iterable_refuted. Qed.
 Print Assumptions C02_comprehension_first_iterable_refuted.
@@ -137,14 +137,14 @@ Print Assumptions C02_comprehension_first_iterable_refuted.
 Theorem C02_class_name_own_attribute_refuted :
   in_fragment_C15 w_class_name_own_attribute = true
   /\ m_frag w_class_name_own_attribute bi_class_name_own_attribute ids_class_name_own_attribute
-            init_class_name_own_attribute call_class_name_own_attribute odd_class_name_own_attribute
+            init_class_name_own_attribute call_class_name_own_attribute odd_class_name_own_attribute prop_class_name_own_attribute
             kwl_class_name_own_attribute = false
   /\ unsound w_class_name_own_attribute nl_class_name_own_attribute bi_class_name_own_attribute
              ids_class_name_own_attribute init_class_name_own_attribute call_class_name_own_attribute
-             odd_class_name_own_attribute kwl_class_name_own_attribute
+             odd_class_name_own_attribute prop_class_name_own_attribute kwl_class_name_own_attribute
   /\ incomplete w_class_name_own_attribute nl_class_name_own_attribute bi_class_name_own_attribute
                 ids_class_name_own_attribute init_class_name_own_attribute call_class_name_own_attribute
-                odd_class_name_own_attribute kwl_class_name_own_attribute.
+                odd_class_name_own_attribute prop_class_name_own_attribute kwl_class_name_own_attribute.
 Proof. exact class_name_own_attribute_refuted. Qed.
 Print Assumptions C02_class_name_own_attribute_refuted.
 
@@ -153,7 +153,7 @@ Theorem C02_kwarg_unresolved_callee_refuted :
   in_fragment_C15 w_kwarg_unresolved_callee = true
   /\ keyword_as_variable w_kwarg_unresolved_callee bi_kwarg_unresolved_callee ids_kwarg_unresolved_callee
                          init_kwarg_unresolved_callee call_kwarg_unresolved_callee
-                         odd_kwarg_unresolved_callee kwl_kwarg_unresolved_callee.
+                         odd_kwarg_unresolved_callee prop_kwarg_unresolved_callee kwl_kwarg_unresolved_callee.
 Proof. exact kwarg_unresolved_callee_refuted. Qed.
 Print Assumptions C02_kwarg_unresolved_callee_refuted.
 
@@ -162,10 +162,10 @@ Theorem C02_unresolved_import_conflation_refuted :
   in_fragment_C15 w_unresolved_import_conflation = true
   /\ m_frag w_unresolved_import_conflation bi_unresolved_import_conflation ids_unresolved_import_conflation
             init_unresolved_import_conflation call_unresolved_import_conflation
-            odd_unresolved_import_conflation kwl_unresolved_import_conflation = false
+            odd_unresolved_import_conflation prop_unresolved_import_conflation kwl_unresolved_import_conflation = false
   /\ unsound w_unresolved_import_conflation nl_unresolved_import_conflation bi_unresolved_import_conflation
              ids_unresolved_import_conflation init_unresolved_import_conflation
-             call_unresolved_import_conflation odd_unresolved_import_conflation
+             call_unresolved_import_conflation odd_unresolved_import_conflation prop_unresolved_import_conflation
              kwl_unresolved_import_conflation.
 Proof. exact unresolved_import_conflation_refuted. Qed.
 Print Assumptions C02_unresolved_import_conflation_refuted.
@@ -175,24 +175,24 @@ Theorem C02_param_default_of_rebound_def_refuted :
   in_fragment_C15 w_param_default_of_rebound_def = true
   /\ m_frag w_param_default_of_rebound_def bi_param_default_of_rebound_def ids_param_default_of_rebound_def
             init_param_default_of_rebound_def call_param_default_of_rebound_def
-            odd_param_default_of_rebound_def kwl_param_default_of_rebound_def = false
+            odd_param_default_of_rebound_def prop_param_default_of_rebound_def kwl_param_default_of_rebound_def = false
   /\ incomplete w_param_default_of_rebound_def nl_param_default_of_rebound_def bi_param_default_of_rebound_def
                 ids_param_default_of_rebound_def init_param_default_of_rebound_def
-                call_param_default_of_rebound_def odd_param_default_of_rebound_def
+                call_param_default_of_rebound_def odd_param_default_of_rebound_def prop_param_default_of_rebound_def
                 kwl_param_default_of_rebound_def.
 Proof. exact param_default_of_rebound_def_refuted. Qed.
 Print Assumptions C02_param_default_of_rebound_def_refuted.
 
 (* ------------------------------------------------------------------ non-vacuity *)
 Example C02_example_in_fragment :
-  m_frag w_example bi_example ids_example init_example call_example odd_example kwl_example = true
-  /\ length (toks w_example) = 48%nat
-  /\ length (filter core (toks w_example)) = 40%nat.
+  m_frag w_example bi_example ids_example init_example call_example odd_example prop_example kwl_example = true
+  /\ length (toks w_example) = 49%nat
+  /\ length (filter core (toks w_example)) = 41%nat.
 Proof. exact example_in_fragment. Qed.
 Print Assumptions C02_example_in_fragment.
 
 Example C02_example_occurrences :
-  example_occs 3 = Some [3; 135]%N
+  example_occs 3 = Some [3; 14; 135]%N
   /\ example_occs 99 = Some [97; 99; 108; 116; 129]%N
   /\ example_occs 12 = Some [12; 22; 71; 106]%N
   /\ example_occs 30 = Some [30; 46; 63; 69; 83]%N
